@@ -43,6 +43,10 @@ func genStale(t *rapid.T) staleCase {
 	c.BuildAfterAdd = rapid.Bool().Draw(t, "buildAfterAdd")
 	c.ResetEQ = rapid.Bool().Draw(t, "resetEQ")
 	c.ResetIndex = rapid.IntRange(0, 2).Draw(t, "resetIndex") == 0
+	if c.Which == "eq" && rapid.Bool().Draw(t, "eqreset") {
+		// a used EdgeQuery whose index is Reset and refilled with less
+		c.ResetIndex, c.UseBefore = true, true
+	}
 	c.Readd = c.ResetIndex && rapid.Bool().Draw(t, "readd")
 	c.First = rapid.IntRange(0, 2).Draw(t, "first")
 	// probes mostly around the later shapes, where the answers change
@@ -83,6 +87,13 @@ func runStale(c staleCase) ev.Outcome {
 			ceq.Crossings(p, c.Probes[1].Pt(), s, s2.CrossingTypeAll)
 		}
 		eqCall(eq, "FindEdges", s2.NewMinDistanceToPointTarget(p), 0)
+		if c.First%2 == 0 {
+			// single-result calls stop early and may leave search state behind
+			for _, pp := range c.Probes {
+				eqCall(eq, "Distance", s2.NewMinDistanceToPointTarget(pp.Pt()), 0)
+			}
+			eqCall(eq, "IsDistanceLess", s2.NewMinDistanceToPointTarget(p), s2.ChordAngleBetweenPoints(p, c.Probes[1].Pt()))
+		}
 	}
 	if c.ResetIndex {
 		// same object, new contents: Reset, then only the later shapes
